@@ -107,7 +107,7 @@ def run(ck):
     framing_part(ck, rnd, 12 if thorough else 1)
 
     # ---- broker client: corpus, then generated histories
-    items = [(evs, D.run_impl(evs, "const"), "const") for _name, evs in L.CORPUS]
+    items = [(evs, D.run_impl(evs, pk), pk) for _name, evs in L.CORPUS for pk in ("const", "const+cc")]
     L.evaluate(ck, "corpus: hand-written histories (Props examples, answer orders, tombstones, loss inside a frame, close)", items,
                WHICH, THEOREMS_BC, L.nontrivial_c06, rnd)
     items = L.generate(ck, rnd, 1300 * scale, ["c06", "c06", "c06", "c10"], [8, 20, 40, 40, 70, 120])
@@ -120,11 +120,13 @@ def run(ck):
 
     # ---- callbacks re-entering the client from a reply callback (tail position of handleResponse)
     L.reentrant_part(ck, rnd, 500 * scale, THEOREMS_BC)
-    L.reentrant_part(ck, rnd, 400 * scale, ["C06_exactly_once_reentrant", "C06_nothing_after_fired_reentrant"], native=True)
+    if L.NATIVE_READY:
+        L.reentrant_part(ck, rnd, 400 * scale, ["C06_exactly_once_reentrant", "C06_nothing_after_fired_reentrant"], native=True)
 
     # ---- exhaustive small scope
     L.exhaustive(ck, 7 if thorough else 6, "whole", WHICH, THEOREMS_BC, rnd)
-    L.exhaustive(ck, 7 if thorough else 5, "hook", WHICH, ["C06_exactly_once_reentrant", "C06_nothing_after_fired_reentrant"], rnd)
+    if L.NATIVE_READY:
+        L.exhaustive(ck, 7 if thorough else 5, "hook", WHICH, ["C06_exactly_once_reentrant", "C06_nothing_after_fired_reentrant"], rnd)
     if thorough:
         L.exhaustive(ck, 7, "split", WHICH, THEOREMS_BC, rnd)
         ck.coqchk(["AV.Props.C06"])
